@@ -10,6 +10,7 @@ def main():
     ap.add_argument("--replay")
     ap.add_argument("--only")
     ap.add_argument("--jobs", type=int)
+    ap.add_argument("--ids-file", help="run only the obligations whose ids are listed in this file (one per line); no evidence is written")
     a = ap.parse_args()
     seed = int(os.environ.get("VERIF_SEED", "0") or 0)
     sys.setrecursionlimit(20000)
@@ -17,7 +18,11 @@ def main():
     if a.replay:
         from . import replay
         sys.exit(replay.run(a.prop, a.replay))
-    sys.exit(runner.check_property(a.prop, tier=a.tier, seed=seed, jobs=a.jobs, only=a.only))
+    only = a.only
+    if a.ids_file:
+        with open(a.ids_file) as fh:
+            only = set(ln.strip() for ln in fh if ln.strip())
+    sys.exit(runner.check_property(a.prop, tier=a.tier, seed=seed, jobs=a.jobs, only=only))
 
 
 if __name__ == "__main__":
